@@ -6,7 +6,7 @@ PROPS = {
                 # replayed through the run machinery with the parameter projection
                 proj="P_C15", mon="mon_true",
                 quick=dict(programs=400, insertion_texts=80, positions_per_text=60,
-                           coq_denter=160, coq_frontend=160),
+                           coq_denter=160, coq_frontend=160, coq_render=64),
                 thorough=dict(programs=8000, insertion_texts=1600, positions_per_text=60,
-                              coq_denter=3200, coq_frontend=3200)),
+                              coq_denter=3200, coq_frontend=3200, coq_render=1280)),
 }
